@@ -162,6 +162,11 @@ struct OutMsg {
 pub struct SessionState {
     pub log: Vec<ReqLog>,
     pub open: Option<(String, EphDb)>,
+    /// what a session without an open ephemeral database works on: like Junos, the shared candidate
+    /// configuration (modelled as the policy statements loaded so far; committing it does not touch
+    /// any ephemeral instance)
+    pub shared_candidate: EphDb,
+    pub committed_shared: bool,
     outbox: VecDeque<OutMsg>,
     pub closed_by_server: bool,
     close_when_drained: bool,
@@ -650,7 +655,7 @@ impl Junos {
                     "running" => Ok(format!("<data>{}</data>", render_running_filtered(&self.running, self.dup_xmlns, op.child("filter")))),
                     "candidate" => match &self.sessions[sid].open {
                         Some((_, db)) => Ok(format!("<data>{}</data>", render_ephemeral(db))),
-                        None => Err("no configuration database open".into()),
+                        None => Ok(format!("<data>{}</data>", render_ephemeral(&self.sessions[sid].shared_candidate))),
                     },
                     other => Err(format!("unsupported source <{other}>")),
                 }
@@ -663,8 +668,16 @@ impl Junos {
                     rec.policy = Some((ps.child("name").map(Elem::text).unwrap_or_default(), ps.attr_q("delete") == Some("delete")));
                 }
                 if self.sessions[sid].open.is_none() {
-                    rec.server_complaint = Some("load-configuration without an open ephemeral database".into());
-                    Err("no configuration database open".into())
+                    // no ephemeral (or private) database is open: the load goes to the shared candidate configuration
+                    rec.server_complaint = Some("load-configuration without an open ephemeral database (it went to the shared candidate configuration)".into());
+                    match cfg {
+                        Some(cfg) if fmt_ok && action == "merge" && !refuse => match apply_load(&mut self.sessions[sid].shared_candidate, cfg) {
+                            Ok(_) => Ok("<load-configuration-results><ok/></load-configuration-results>".into()),
+                            Err(e) => Err(e),
+                        },
+                        Some(_) if refuse => Ok(String::new()),
+                        _ => Err("unsupported load".into()),
+                    }
                 } else if !fmt_ok || action != "merge" {
                     rec.server_complaint = Some(format!("load-configuration with format/action {:?}/{action}", op.attr("format")));
                     Err("unsupported load format/action".into())
@@ -715,7 +728,13 @@ impl Junos {
                     Ok("<ok/>".into())
                 }
                 Some(_) => Ok(String::new()),
-                None => Err("no configuration database open".into()),
+                None if refuse => Ok(String::new()),
+                None => {
+                    // commits the shared candidate configuration; no ephemeral instance changes
+                    rec.server_complaint = Some("commit-configuration without an open ephemeral database (the shared candidate configuration was committed)".into());
+                    self.sessions[sid].committed_shared = true;
+                    Ok("<ok/>".into())
+                }
             },
             "close-configuration" => {
                 if !refuse {
